@@ -27,7 +27,8 @@ META = {
                  "validation of every recorded call",
     "level_text": "Small-scope exhaustive: TLC enumerates shapes (<= 3 axes, extents 0,1,5,7,12) x per-axis chunk specs (ints, "
                   "-1/None, explicit tuples incl. ones that do not add up, 'auto'/byte strings) x byte limits x itemsizes x "
-                  "previous_chunks and every (source, target) pair of chunkings of 1-d extents <= 6 and of small 2-d/3-d shapes "
+                  "previous_chunks - plus, as a dimension of its own, every previous chunking of 1-3 all-'auto' axes built from a small, a "
+                  "tolerance-band, an oversize and a zero-width piece in every order - and every (source, target) pair of chunkings of 1-d extents <= 6 and of small 2-d/3-d shapes "
                   "(incl. zero-width blocks); the real normalize_chunks, old_to_new, plan_rechunk and rechunk (thresholds/limits "
                   "forcing multi-stage plans) are run on each case and TLC decides every recorded call against the contract; "
                   "rechunk results are compared block by block with the identity reference.",
@@ -515,7 +516,8 @@ def norm_records(ctx, cases, nvar, prefix="n"):
         for j, v in enumerate(norm_variants(c["c"], ctx.rng, nvar)):
             items.append(("%s%d_%d" % (prefix, i, j), c["c"], v))
     recs = []
-    for r in pmap(norm_record, items, chunk=256):
+    # (normalize_chunks takes ~0.1 ms: a fork pool costs more than it saves, especially on a loaded machine)
+    for r in (pmap(norm_record, items, chunk=512) if len(items) > 40000 else map(norm_record, items)):
         if "skip" in r:
             ctx.skip(r["skip"])
             continue
